@@ -108,7 +108,12 @@ class Ctx(object):
         return cond
 
     def note(self, k, v):
-        self.info[k] = v
+        if isinstance(v, dict) and isinstance(self.info.get(k), dict):
+            self.info[k].update(v)
+        elif isinstance(v, list) and isinstance(self.info.get(k), list):
+            self.info[k] += [x for x in v if x not in self.info[k]]
+        else:
+            self.info[k] = v
 
     def add(self, k, n=1):
         self.info[k] = self.info.get(k, 0) + n
